@@ -8,13 +8,15 @@ open Reduino.Lang
 /-- outcome of the C side on a list of setup statements -/
 def TopOut (te : C.TyEnv) (s0 : Store) (te1 : C.TyEnv) (stp' : Py.St) (r : Except Err Py.St) : Prop :=
   (∃ stc', r = .ok stc' ∧ StRel te stp' stc' ∧ (∀ x, te1.lookup x = none → stc'.store.get x = s0.get x)) ∨
-  r = .error .overflow
+  UB r
 
 theorem Sim1_mono {te : C.TyEnv} {stp' : Py.St} {f F : Nat} {s : Stmt} {st : Py.St} (hle : f ≤ F)
     (h : Sim1 te stp' (C.exec te f s st)) : Sim1 te stp' (C.exec te F s st) := by
   have : C.exec te F s st = C.exec te f s st := by
     apply C_exec_mono hle
-    rcases h with ⟨stc', h, _⟩ | h <;> rw [h] <;> intro e <;> cases e
+    rcases h with ⟨stc', h, _⟩ | h
+    · rw [h]; intro e; cases e
+    · exact UB_ne_fuel h
   rw [this]; exact h
 
 /-- one run-time assignment at top level, executed under the final type environment -/
